@@ -390,6 +390,15 @@ def check(ctx):
     ctx.cov["evaluations"] += ncases
     st = ctx.cov["suites"].setdefault("S-connp", {"cases": 0, "mismatches": 0})
     st["cases"] += ncases
+    # the computable premise of the run-level theorem C01_no_fault (extracted run_okb + "no callback destroys a transaction"), per history
+    okb_lines, okbad = vf.run_sharded(ctx, mexe, ["connp_okb\t" + c.split("\t", 1)[1] for c in cases], "S-connp-okb")
+    if okbad is not None:
+        raise vf.CheckError("model driver failed on connp_okb: %s" % (okbad,))
+    in_domain = [l.startswith("okb=1 nodestroy=1") for l in okb_lines]
+    st["histories_inside_no_fault_premise"] = sum(in_domain)
+    # a sanitizer report inside the premise of the theorem is never a listed finding: the theorem says the model cannot fault there, so either the
+    # library broke or the model no longer describes it
+    events = [(k, c, e, (kf if not in_domain[cases.index(c)] else None)) for (k, c, e, kf) in events]
     nbad = report_events(ctx, events, "S-connp", counts)
     # agreement of the model's fault flag with the sanitizers
     mfault = set(i for i, o in enumerate(model) if o.endswith(";FAULT"))
@@ -408,6 +417,13 @@ def check(ctx):
         else:
             silent.append(i)
     st["model_fault_without_sanitizer_report"] = len(silent)
+    # the theorem, re-checked by evaluation: no model fault inside its premise
+    inside_fault = [i for i in sorted(mfault) if in_domain[i]]
+    st["model_fault_inside_premise"] = len(inside_fault)
+    if inside_fault:
+        i = inside_fault[0]
+        vf.violation(ctx, "premise-%d" % i, {"kind": "model-faults-inside-the-premise-of-the-no-fault-theorem", "suite": "S-connp", "case": cases[i], "model": model[i][-1500:],
+                                             "theorem": "Properties_C01.v C01_no_fault (run_okb) -- the extracted premise and the proved one disagree"}, no_input=True)
     # leak bit of the per-case heap accounting
     leaky = [live[j] for j, t in enumerate(traces) if t & LEAK_BIT]
     for i in leaky[:2]:
